@@ -747,9 +747,19 @@ def no_tolerance_shortcut(chk, repo, pid):
     for f in repo.all_functions():
         if f.module.name not in mods or f.key in NARROW_OK:
             continue
+        dtype_strings = set()
         for node in ast.walk(f.node):
-            if (isinstance(node, ast.Attribute) and node.attr in NARROW) or (isinstance(node, ast.Name) and node.id in NARROW) or \
-                    (isinstance(node, ast.Constant) and isinstance(node.value, str) and node.value in NARROW_CODES):
+            if isinstance(node, ast.Call):
+                for k in node.keywords:
+                    if k.arg == 'dtype' and isinstance(k.value, ast.Constant):
+                        dtype_strings.add(id(k.value))
+                if isinstance(node.func, ast.Attribute) and node.func.attr in ('astype', 'view', 'dtype') and node.args \
+                        and isinstance(node.args[0], ast.Constant):
+                    dtype_strings.add(id(node.args[0]))
+        for node in ast.walk(f.node):
+            if (isinstance(node, ast.Attribute) and node.attr in NARROW and (dotted(node) or '').split('.')[0] in ('np', 'numpy')) or \
+                    (isinstance(node, ast.Constant) and isinstance(node.value, str) and node.value in NARROW_CODES
+                     and id(node) in dtype_strings):
                 badp.append((f, node))
                 break
     for f, node in badp:
@@ -914,6 +924,17 @@ def crossed_arguments_rule(chk, repo, clause, mods):
             pn = set(callee.param_names())
             mm = [(p_, a) for p_, a in bind.b3_mismatches(site)
                   if isinstance(site.binding.get(a), ast.Name) and site.binding[a].id != a and site.binding[a].id in pn]
+            if mm and len(mm) == 2 and {mm[0][0], mm[0][1]} == {mm[1][0], mm[1][1]}:
+                # two arguments exchanged: harmless exactly when the callee is symmetric in the two parameters
+                a_, b_ = mm[0]
+                try:
+                    _, cps, _ = analyse(repo, callee)
+                    swap = {('sym', a_): nf.sym(b_), ('sym', b_): nf.sym(a_)}
+                    rs = [q.ret for q in returns(cps)]
+                    if rs and all(r is not None and nf.subst_value(r, swap) == r for r in rs):
+                        mm = []
+                except Exception:
+                    pass
             if mm and (f.key, callee.key) not in CROSSED_OK:
                 bad.append(f'{f.key} -> {callee.key} at {f.loc(node)}: ' + ', '.join(f'`{a}` passed for `{p_}`' for p_, a in mm))
     chk.ob(clause, 'B3-binding', 'lentil.' + '/'.join(mods), 'internal calls pass like-named variables for like-named parameters',
